@@ -102,8 +102,9 @@ static void make_oracle2d(B2& b, const std::string& tag) {
   o.unk.clear();
   auto freept = [&](int i) { return s.pts[i].st != 'f'; };
   auto touch = [&](const std::string& id, char t) { if (o.col(id, t) < 0) o.unk.push_back({id, t}); };
-  size_t si = 0; for (auto& st : s.st) { bool dirs = false;
-    for (auto& ob : st.obs) { if (ob.kind == 0) dirs = true;
+  auto is_passive0 = [&](int k) { return std::find(b.passive.begin(), b.passive.end(), k) != b.passive.end(); };
+  size_t si = 0; int k0 = -1; for (auto& st : s.st) { bool dirs = false;
+    for (auto& ob : st.obs) { k0++; if (ob.kind == 0 && !is_passive0(k0)) dirs = true;      // a set all of whose directions are left out has no orientation unknown
       for (int p : {st.from, ob.to, ob.kind == 2 ? ob.to2 : ob.to}) if (freept(p)) { touch(s.pts[p].id, 'X'); touch(s.pts[p].id, 'Y'); } }
     if (dirs) touch(s.pts[st.from].id, 'R'); si++; }
   auto is_passive = [&](int k) { return std::find(b.passive.begin(), b.passive.end(), k) != b.passive.end(); };
@@ -321,15 +322,25 @@ static void case_illposed(const Spec2& spec) {
 // oracle's with it; rejected => |abs.term| > tol, it is listed as rejected and the result is the oracle's without it
 static void case_outlier(const Spec2& spec, int alg, int k) {
   std::vector<Real> err = sym_errors(spec);
-  int kind = -1; { int q = 0; for (auto& st : spec.st) for (auto& ob : st.obs) { if (q == k) kind = ob.kind; q++; } }
+  int kind = -1, from_k = -1, to_k = -1; { int q = 0; for (auto& st : spec.st) for (auto& ob : st.obs) { if (q == k) { kind = ob.kind; from_k = st.from; to_k = ob.to; } q++; } }
   Real g = sx::input("gross"); if (kind == 1) sx::assume_range(g, Q(-3), Q(3)); else sx::assume_range(g, Q(-1, 100), Q(1, 100));       // +-3 m on a distance, +-0.01 rad (6366 cc) on a direction or angle; tol-abs = 1000 (mm, cc)
   err[k] = err[k] + g;
   B2 b; if (!build2d(b, spec, err, ALGS[alg])) return; std::string tag = std::string(ALGS[alg]) + " gross error in observation " + std::to_string(k + 1);
   R2 r = run2d(b, false); LocalNetwork* IS = b.net.IS.get();
-  bool rejected = false; for (Observation* o : IS->rejected_observations()) if (o == b.obs[k]) rejected = true; else sx::fail(tag + " another observation was rejected", "");
+  // the set of the perturbed direction: with exactly two directions the approximate orientation (median = mean) shares the error between
+  // them, both absolute terms are half of it and both are rejected together; any other additional rejection is a failure
+  int set_first = -1, set_dirs = 0; { int q = 0; for (auto& st : spec.st) { int first = q, nd = 0; for (auto& ob : st.obs) { if (ob.kind == 0) nd++; q++; } if (k >= first && k < q) { set_first = first; set_dirs = nd; } } }
+  bool rejected = false; std::vector<int> also;
+  for (Observation* o : IS->rejected_observations()) { if (o == b.obs[k]) { rejected = true; continue; }
+    int j = -1; for (size_t t = 0; t < b.obs.size(); t++) if (b.obs[t] == o) j = (int)t;
+    bool twin = kind == 0 && set_dirs == 2 && j >= set_first && j >= 0 && dynamic_cast<Direction*>(o) && o->from().str() == b.obs[k]->from().str();
+    if (twin) also.push_back(j); else sx::fail(tag + " another observation was rejected", j >= 0 ? "observation " + std::to_string(j + 1) : ""); }
+  if (!also.empty()) { sx::check_true(rejected, tag + " the other direction of a two-direction set is rejected only together with the perturbed one", ""); for (int j : also) b.passive.push_back(j); }
   sx::check_true(r.ok, tag + " adjusted", r.why); if (!r.ok) return;
   // the decision against the threshold, on the abs. term stated from the specification
-  Real l = (kind == 1) ? (err[k]) * sx::rat(1000) : to_cc(err[k]); Real tol = IS->tol_abs();
+  // (positional misclosure in mm: a distance error itself; an angular error times the length of the sight -- for an angle the sight to its
+  //  first target, as documented at LocalNetwork::test_abs_term)
+  Real l = (kind == 1) ? (err[k]) * sx::rat(1000) : err[k] * sx::constant(dist(spec, from_k, to_k)) * sx::rat(1000); Real tol = IS->tol_abs();
   if (kind == 0) { /* the approximate orientation of the set absorbs part of the error: the term is taken from the oracle below */ }
   if (rejected) b.passive.push_back(k);
   make_oracle2d(b, tag); Oracle& o = b.orc; if (!o.resolves) return;
@@ -430,6 +441,15 @@ static void gen_cases(const sx::Options& opt, std::vector<sx::Case>& cases) {
       else { st.obs.push_back({2, 0, 1, Q(10)}); st.obs.push_back({2, 1, 2, Q(10)}); st.obs.push_back({2, 2, 3, Q(10)}); }
       s.st.push_back(st);
       for (int omit = 0; omit < 2; omit++) { int alg = (k++) % 3; auto sp = std::make_shared<Spec2>(s); add("net2d/consistent/" + s.name + "/" + ALGS[alg] + (omit ? "/acord" : "/given"), "plane networks", [sp, alg, omit] { case_consistent(*sp, alg, omit != 0); }); } }
+    // resection by directions where a pair of targets occurs in both orders: a round closed on its first target, two rounds in opposite
+    // order (ApproxPoint::ArrangeObservations merges the inner angles of equal target pairs, complementing those listed the other way round)
+    for (int variant = 0; variant < 3; variant++) { Spec2 s; s.name = variant == 0 ? "resection-closed-round" : variant == 1 ? "resection-two-rounds-reversed" : "resection-closed-round-T2";
+      Q X0 = 1000, Y0 = 2000; s.pts = {{"A", X0, Y0, 'f', true}, {"B", X0 + 400, Y0, 'f', true}, {"C", X0 + 400, Y0 + 300, 'f', true}, {"D", X0, Y0 + 300, 'f', true}, {"E", X0 + 200, Y0 + 150, 'a', true}};
+      if (variant == 2) { s.pts[4].x = X0 + 100; s.pts[4].y = Y0 + 75; s.pts[2].x = X0 + 200; s.pts[2].y = Y0 + 150; }
+      St2 st; st.from = 4; st.zero = variant == 2 ? Q(55, 10) : Q(23, 10); for (int t : {0, 1, 3}) st.obs.push_back({0, t, 0, Q(10)});
+      if (variant != 1) { st.obs.push_back({0, 0, 0, Q(10)}); s.st.push_back(st); }
+      else { s.st.push_back(st); St2 st2; st2.from = 4; st2.zero = Q(41, 10); for (int t : {3, 1, 0}) st2.obs.push_back({0, t, 0, Q(10)}); s.st.push_back(st2); }
+      int alg = (k++) % 3; auto sp = std::make_shared<Spec2>(s); add("net2d/consistent/" + s.name + "/" + ALGS[alg] + "/acord", "plane networks", [sp, alg] { case_consistent(*sp, alg, true); }); }
     // two-angle resections in pseudo-random integer geometries (general position: the constants are radicals and arctangents, compared
     // numerically); which of the two circle intersections is the point, and where bearing 0 falls, varies from one to the next
     // (the family is fixed, independent of VERIF_SEED).  Only geometries that the documented strategy resolves are generated:
@@ -503,6 +523,8 @@ static void gen_cases(const sx::Options& opt, std::vector<sx::Case>& cases) {
   if (on("C14")) { int k = 0;
     // a free network with some points constrained: the removal of the first listed observation renumbers the unknowns
     for (int q : {0, 4}) { int alg = (k++) % 3; auto sp = std::make_shared<Spec2>(freen[2]); add("net2d/outlier/" + freen[2].name + "/" + ALGS[alg] + "/obs" + std::to_string(q), "plane networks", [sp, alg, q] { case_outlier(*sp, alg, q); }); }
+    // an angle (standard deviation above m0) in the quick tier as well
+    if (!th) { int alg = (k++) % 3; auto sp = std::make_shared<Spec2>(fixed[1]); add("net2d/outlier/" + fixed[1].name + "/" + ALGS[alg] + "/obs8", "plane networks", [sp, alg] { case_outlier(*sp, alg, 8); }); }
     for (auto& s : fixed) { if (&s != &fixed[0] && !th) continue; int nobs = 0; for (auto& st : s.st) nobs += (int)st.obs.size();
       for (int q = 0; q < nobs; q += (th ? 2 : 5)) { int alg = (k++) % 3; auto sp = std::make_shared<Spec2>(s); add("net2d/outlier/" + s.name + "/" + ALGS[alg] + "/obs" + std::to_string(q), "plane networks", [sp, alg, q] { case_outlier(*sp, alg, q); }); } } }
   if (on("C12")) { int k = 0; for (auto& s : fixed) { int alg = (k++) % 3; auto sp = std::make_shared<Spec2>(s); add("net2d/xml/" + s.name + "/" + ALGS[alg], "plane networks", [sp, alg] { case_xml2d(*sp, alg); }); }
